@@ -118,32 +118,46 @@ func (c *Cluster) handleListOffsets(creq *clientReq) (kmsg.Response, error) {
 					sp.LeaderEpoch = m.epoch
 				}
 			default:
-				// Two-level binary search for the first batch whose maxTimestamp >= requested timestamp.
-				segIdx, _, meta := pd.findBatchMeta(rp.Timestamp, func(m *batchMeta) int64 { return m.maxTimestamp })
-				if meta == nil {
-					sp.Offset = -1
-				} else {
-					sp.Offset = meta.firstOffset
-					sp.Timestamp = meta.firstTimestamp
-					sp.LeaderEpoch = meta.epoch
-					// Read the full batch to iterate records for precise timestamp
-					batch, err := c.readBatchFull(pd, segIdx, meta)
-					if err != nil {
-						sp.ErrorCode = kerr.CorruptMessage.Code
-						continue
-					}
-					err = forEachBatchRecord(batch.RecordBatch, func(rec kmsg.Record) error {
-						timestamp := batch.FirstTimestamp + rec.TimestampDelta64
-						offset := batch.FirstOffset + int64(rec.OffsetDelta)
-						if timestamp <= rp.Timestamp {
-							sp.Offset = offset
-							sp.Timestamp = timestamp
+				// The answer is the first record, at or after the log
+				// start, whose timestamp is >= the requested timestamp.
+				// Batch max timestamps are not monotonic (CreateTime is
+				// client supplied and control markers carry the wall
+				// clock), so we scan the batch index in order rather
+				// than binary searching it.
+				sp.Offset = -1
+			scan:
+				for si := range pd.segments {
+					seg := &pd.segments[si]
+					for mi := range seg.index {
+						meta := &seg.index[mi]
+						if meta.maxTimestamp < rp.Timestamp || meta.firstOffset+int64(meta.lastOffsetDelta) < pd.logStartOffset {
+							continue
 						}
-						return nil
-					})
-					if err != nil {
-						sp.ErrorCode = kerr.CorruptMessage.Code
-						continue
+						// Read the full batch to iterate records for precise timestamp
+						batch, err := c.readBatchFull(pd, si, meta)
+						if err != nil {
+							sp.ErrorCode = kerr.CorruptMessage.Code
+							break scan
+						}
+						found := false
+						err = forEachBatchRecord(batch.RecordBatch, func(rec kmsg.Record) error {
+							timestamp := batch.FirstTimestamp + rec.TimestampDelta64
+							offset := batch.FirstOffset + int64(rec.OffsetDelta)
+							if !found && timestamp >= rp.Timestamp && offset >= pd.logStartOffset {
+								found = true
+								sp.Offset = offset
+								sp.Timestamp = timestamp
+								sp.LeaderEpoch = meta.epoch
+							}
+							return nil
+						})
+						if err != nil {
+							sp.ErrorCode = kerr.CorruptMessage.Code
+							break scan
+						}
+						if found {
+							break scan
+						}
 					}
 				}
 			}
